@@ -76,43 +76,44 @@ Proof.
   intros Hm. injection Hm as <-. apply wf_adel. exact (H name inner E).
 Qed.
 
-Lemma wf_step st o : wf_idx st -> wf_idx (idx_step st o).
+Lemma wf_step sfx st o : wf_idx st -> wf_idx (idx_step_g sfx st o).
 Proof.
   intros [H1 H2]. destruct o as [p|p]; simpl.
-  - unfold idx_insert. destruct (index_byte dot (last_seg p)); split; simpl;
+  - unfold idx_insert. destruct (suffix_index sfx (last_seg p)); split; simpl;
       try apply wf_inner_set; assumption.
-  - unfold idx_remove. destruct (index_byte dot (last_seg p)); split; simpl;
+  - unfold idx_remove. destruct (suffix_index sfx (last_seg p)); split; simpl;
       try apply wf_inner_del; assumption.
 Qed.
 
-Lemma wf_step_fixed st o : wf_idx st -> wf_idx (idx_step_fixed st o).
+Lemma wf_step_fixed sfx st o : wf_idx st -> wf_idx (idx_step_fixed_g sfx st o).
 Proof.
   intros [H1 H2]. destruct o as [p|p]; simpl.
-  - unfold idx_insert. destruct (index_byte dot (last_seg p)); split; simpl;
+  - unfold idx_insert. destruct (suffix_index sfx (last_seg p)); split; simpl;
       try apply wf_inner_set; assumption.
-  - unfold idx_remove_fixed. destruct (index_byte dot (last_seg p)); split; simpl;
+  - unfold idx_remove_fixed. destruct (suffix_index sfx (last_seg p)); split; simpl;
       try apply wf_inner_del; assumption.
 Qed.
 
 Lemma wf_empty : wf_idx idx_empty.
 Proof. split; intros n m H; discriminate. Qed.
 
-Lemma wf_run ops : wf_idx (idx_run ops).
+Lemma wf_run sfx ops : wf_idx (idx_run_g sfx ops).
 Proof.
-  unfold idx_run. assert (forall st, wf_idx st -> wf_idx (fold_left idx_step ops st)) as H.
+  unfold idx_run_g. assert (forall st, wf_idx st -> wf_idx (fold_left (idx_step_g sfx) ops st)) as H.
   { induction ops as [|o ops IH]; intros st Hs; simpl; [exact Hs|]. apply IH. apply wf_step. exact Hs. }
   apply H. apply wf_empty.
 Qed.
 
-Lemma wf_run_fixed ops : wf_idx (idx_run_fixed ops).
+Lemma wf_run_fixed sfx ops : wf_idx (idx_run_fixed_g sfx ops).
 Proof.
-  unfold idx_run_fixed. assert (forall st, wf_idx st -> wf_idx (fold_left idx_step_fixed ops st)) as H.
+  unfold idx_run_fixed_g. assert (forall st, wf_idx st -> wf_idx (fold_left (idx_step_fixed_g sfx) ops st)) as H.
   { induction ops as [|o ops IH]; intros st Hs; simpl; [exact Hs|]. apply IH. apply wf_step_fixed. exact Hs. }
   apply H. apply wf_empty.
 Qed.
 
-(* the index is a Go map (no duplicate keys) that answers like the index of the file set *)
-Definition index_ok (st : idx) (files : fset) : Prop := wf_idx st /\ index_is st files.
+(* the index is a Go map (no duplicate keys) that answers like the index of the file set; sfx = which variant of the
+   name cut the index was built with *)
+Definition index_ok (sfx : bool) (st : idx) (files : fset) : Prop := wf_idx st /\ index_is sfx st files.
 
 Lemma wf_get_name st n : wf_idx st -> wf_amap (get_name_map st n).
 Proof.
@@ -124,51 +125,69 @@ Proof.
 Qed.
 
 (* ---- the candidate list of GetBestMatchReferFile ---- *)
+(* every workspace file is one whose module name the variant sfx gets right (ModulePathStr.good_lua) *)
+Definition all_good (sfx : bool) (files : fset) : Prop := forall g, In g files -> good_lua sfx g = true.
+(* before fixes/C18-dotted-path.diff: the only '.' of every path is the one of its final ".lua" *)
 Definition all_simple (files : fset) : Prop := forall g, In g files -> simple_lua g = true.
 
-(* refer contains a '.': looked up by full file name, kept when "/refer" is a suffix of the path *)
-Lemma cands_name st files r c : index_ok st files -> has_dot r = true ->
-  (In c (bm_candidates r st) <-> In c files /\ path_suffix r c = true).
+Lemma all_simple_good files : all_simple files <-> all_good false files.
+Proof. split; intros H g Hg; exact (H g Hg). Qed.
+
+(* after it: every path ends in ".lua" (the boolean guard Spec.all_lua) *)
+Lemma all_lua_good files : all_lua files = true <-> all_good true files.
+Proof. unfold all_lua, all_good. cbn [good_lua]. apply forallb_forall. Qed.
+
+(* looked up by full file name, kept when "/refer" is a suffix of the path *)
+Lemma cands_name_g sfx st files r c : index_ok sfx st files ->
+  (In c (bm_candidates_g true r st) <-> In c files /\ path_suffix r c = true).
 Proof.
-  intros [Hwf His] Hd. unfold bm_candidates. rewrite Hd. rewrite in_map_iff. split.
+  intros [Hwf His]. unfold bm_candidates_g. rewrite in_map_iff. split.
   - intros [[c' pre] [Hc Hin]]. simpl in Hc. subst c'. apply filter_In in Hin as [Hin Hs]. simpl in Hs.
     apply (wf_in_aget _ _ _ (wf_get_name st _ Hwf)) in Hin.
     destruct (His (last_seg r) c) as [Hn _]. rewrite Hn in Hin. unfold spec_name in Hin.
     destruct (fmem c files) eqn:Em; [|discriminate]. split; [apply fmem_In; exact Em|exact Hs].
-  - intros [Hin Hs]. exists (c, complete_pre c). split; [reflexivity|]. apply filter_In. split; [|exact Hs].
+  - intros [Hin Hs]. exists (c, complete_pre_fx sfx c). split; [reflexivity|]. apply filter_In. split; [|exact Hs].
     apply (wf_in_aget _ _ _ (wf_get_name st _ Hwf)).
     destruct (His (last_seg r) c) as [Hn _]. rewrite Hn. unfold spec_name.
     apply fmem_In in Hin. rewrite Hin. unfold path_suffix in Hs. rewrite (suffix_last_seg r c Hs), beq_refl. reflexivity.
 Qed.
 
-(* refer without '.': looked up by the name before the first '.', kept when "/refer" is a suffix of the path
-   before its first '.'; for simple names that is "refer.lua is a path suffix" *)
-Lemma cands_pre st files r c : index_ok st files -> all_simple files -> has_dot r = false ->
-  (In c (bm_candidates r st) <-> In c files /\ path_suffix (r ++ lua_ext) c = true).
+(* refer contains a '.': GetBestMatchReferFile looks it up by full file name *)
+Lemma cands_name sfx st files r c : index_ok sfx st files -> has_dot r = true ->
+  (In c (bm_candidates r st) <-> In c files /\ path_suffix r c = true).
+Proof. intros Hok Hd. unfold bm_candidates. rewrite Hd. apply (cands_name_g sfx); exact Hok. Qed.
+
+(* looked up by the name without suffix, kept when "/refer" is a suffix of the path without suffix; for good names
+   that is "refer.lua is a path suffix" *)
+Lemma cands_pre_g sfx st files r c : index_ok sfx st files -> all_good sfx files ->
+  (In c (bm_candidates_g false r st) <-> In c files /\ path_suffix (r ++ lua_ext) c = true).
 Proof.
-  intros [Hwf His] Hsimple Hd. unfold bm_candidates. rewrite Hd. rewrite in_map_iff. split.
+  intros [Hwf His] Hgood. unfold bm_candidates_g. rewrite in_map_iff. split.
   - intros [[c' pre] [Hc Hin]]. simpl in Hc. subst c'. apply filter_In in Hin as [Hin Hs]. simpl in Hs.
     apply andb_true_iff in Hs as [_ Hs].
     apply (wf_in_aget _ _ _ (wf_get_pre st _ Hwf)) in Hin.
     destruct (His (last_seg r) c) as [_ Hp]. rewrite Hp in Hin. unfold spec_pre in Hin.
     destruct (fmem c files) eqn:Em; [|discriminate]. apply fmem_In in Em. split; [exact Em|].
-    destruct (proj1 (simple_lua_spec c) (Hsimple c Em)) as [b [-> Hb]].
-    destruct (simple_name_dot b Hb) as [Hi Hf]. rewrite Hi, Hf in Hin.
+    destruct (good_lua_spec sfx c (Hgood c Em)) as [b [Hc [Hi [Hf Hpre]]]].
+    rewrite Hi, Hf, Hpre in Hin.
     destruct (beq_bytes (last_seg b) (last_seg r)); [|discriminate]. injection Hin as <-.
-    rewrite (simple_pre b Hb) in Hs. unfold path_suffix.
+    subst c. unfold path_suffix.
     change (slash :: r ++ lua_ext) with ((slash :: r) ++ lua_ext). rewrite is_suffix_app_cancel. exact Hs.
   - intros [Hin Hs].
-    destruct (proj1 (simple_lua_spec c) (Hsimple c Hin)) as [b [-> Hb]].
-    unfold path_suffix in Hs. change (slash :: r ++ lua_ext) with ((slash :: r) ++ lua_ext) in Hs.
+    destruct (good_lua_spec sfx c (Hgood c Hin)) as [b [Hc [Hi [Hf Hpre]]]].
+    unfold path_suffix in Hs. rewrite Hc in Hs. change (slash :: r ++ lua_ext) with ((slash :: r) ++ lua_ext) in Hs.
     rewrite is_suffix_app_cancel in Hs.
-    exists (b ++ lua_ext, b). split; [reflexivity|]. apply filter_In. split.
+    exists (c, b). split; [reflexivity|]. apply filter_In. split.
     + apply (wf_in_aget _ _ _ (wf_get_pre st _ Hwf)).
-      destruct (His (last_seg r) (b ++ lua_ext)) as [_ Hp]. rewrite Hp. unfold spec_pre.
-      apply fmem_In in Hin. rewrite Hin.
-      destruct (simple_name_dot b Hb) as [Hi Hf]. rewrite Hi, Hf.
-      rewrite (suffix_last_seg r b Hs), beq_refl. rewrite (simple_pre b Hb). reflexivity.
+      destruct (His (last_seg r) c) as [_ Hp]. rewrite Hp. unfold spec_pre.
+      apply fmem_In in Hin. rewrite Hin. rewrite Hi, Hf, Hpre.
+      rewrite (suffix_last_seg r b Hs), beq_refl. reflexivity.
     + simpl. rewrite Hs. apply is_suffix_spec in Hs as [p Hp]. destruct b; [destruct p; discriminate|reflexivity].
 Qed.
+
+Lemma cands_pre sfx st files r c : index_ok sfx st files -> all_good sfx files -> has_dot r = false ->
+  (In c (bm_candidates r st) <-> In c files /\ path_suffix (r ++ lua_ext) c = true).
+Proof. intros Hok Hg Hd. unfold bm_candidates. rewrite Hd. apply (cands_pre_g sfx); assumption. Qed.
 
 (* ---- the set of best-scored candidates ---- *)
 Lemma argmax_sub cur r cs c : In c (argmax_set cur r cs) -> In c cs.
@@ -203,51 +222,37 @@ Qed.
 Lemma argmax_single cur r c : argmax_set cur r [c] = [c].
 Proof. unfold argmax_set, max_score. simpl. rewrite Z.eqb_refl. reflexivity. Qed.
 
-(* best_set against a declarative candidate set S (given as a filter over the file set) *)
-Lemma best_set_sub st files cur r (P : list N -> bool) :
-  (forall c, In c (bm_candidates r st) <-> In c files /\ P c = true) ->
-  (forall c, In c (best_set cur r st) -> In c (filter P files)) /\
-  (best_set cur r st = [] <-> filter P files = []).
+(* the choice among a candidate list cs that is, as a set, the filter P of the file set *)
+Lemma best_of_incl fx cur r cs c : In c (best_of fx cur r cs) -> In c (argmax_set cur r cs).
 Proof.
-  intros H. split.
-  - intros c Hc. apply argmax_sub in Hc. apply filter_In. apply H. exact Hc.
-  - unfold best_set. split.
-    + intros He. destruct (filter P files) as [|g l] eqn:Ef; [reflexivity|].
-      assert (In g (bm_candidates r st)) as Hg.
-      { apply H. apply filter_In. rewrite Ef. left. reflexivity. }
-      exfalso. apply (argmax_nonempty cur r (bm_candidates r st)); [|exact He].
-      intros Hn. rewrite Hn in Hg. destruct Hg.
-    + intros He. destruct (bm_candidates r st) as [|g l] eqn:Eb; [reflexivity|].
-      assert (In g (filter P files)) as Hg.
-      { apply filter_In. apply H. left. reflexivity. }
-      rewrite He in Hg. destruct Hg.
-Qed.
-
-(* the same for either variant of the choice: fx = false the set of best-scored candidates, fx = true the repaired
-   singleton (fixes/C09-deterministic-order.diff) *)
-Lemma best_set_fx_incl fx cur r st c : In c (best_set_fx fx cur r st) -> In c (best_set cur r st).
-Proof.
-  destruct fx; cbn [best_set_fx]; [|intros H; exact H].
-  destruct (best_match true cur r (bm_candidates r st)) as [m|] eqn:E; [|intros []].
+  destruct fx; cbn [best_of]; [|intros H; exact H].
+  destruct (best_match true cur r cs) as [m|] eqn:E; [|intros []].
   intros [<-|[]]. apply (best_match_fixed_argmax _ _ _ _ E).
 Qed.
 
-Lemma best_set_fx_nil fx cur r st : best_set_fx fx cur r st = [] <-> best_set cur r st = [].
+Lemma best_of_nil fx cur r cs : best_of fx cur r cs = [] <-> cs = [].
 Proof.
-  destruct fx; cbn [best_set_fx]; [|tauto].
-  destruct (best_match true cur r (bm_candidates r st)) as [m|] eqn:E.
-  - split; [discriminate|]. intros Hn. apply best_match_fixed_argmax in E. unfold best_set in Hn. rewrite Hn in E. destruct E.
-  - apply best_match_fixed_none in E. unfold best_set. rewrite E. split; reflexivity.
+  destruct fx; cbn [best_of].
+  - destruct (best_match true cur r cs) as [m|] eqn:E.
+    + split; [discriminate|]. intros ->. apply best_match_fixed_argmax in E. destruct E.
+    + apply best_match_fixed_none in E. subst. split; reflexivity.
+  - split; [|intros ->; reflexivity]. intros H. destruct cs as [|c0 t]; [reflexivity|].
+    exfalso. apply (argmax_nonempty cur r (c0 :: t)); [discriminate|exact H].
 Qed.
 
-Lemma best_set_fx_sub fx st files cur r (P : list N -> bool) :
-  (forall c, In c (bm_candidates r st) <-> In c files /\ P c = true) ->
-  (forall c, In c (best_set_fx fx cur r st) -> In c (filter P files)) /\
-  (best_set_fx fx cur r st = [] <-> filter P files = []).
+Lemma best_of_sub fx files cur r cs (P : list N -> bool) :
+  (forall c, In c cs <-> In c files /\ P c = true) ->
+  (forall c, In c (best_of fx cur r cs) -> In c (filter P files)) /\
+  (best_of fx cur r cs = [] <-> filter P files = []).
 Proof.
-  intros H. destruct (best_set_sub st files cur r P H) as [Hs Hn]. split.
-  - intros c Hc. apply Hs. apply (best_set_fx_incl fx). exact Hc.
-  - rewrite best_set_fx_nil. exact Hn.
+  intros H. split.
+  - intros c Hc. apply best_of_incl, argmax_sub in Hc. apply filter_In. apply H. exact Hc.
+  - rewrite best_of_nil. split.
+    + intros ->. destruct (filter P files) as [|g l] eqn:Ef; [reflexivity|].
+      assert (In g []) as Hg by (apply H; apply filter_In; rewrite Ef; left; reflexivity). destruct Hg.
+    + intros He. destruct cs as [|g l]; [reflexivity|].
+      assert (In g (filter P files)) as Hg by (apply filter_In; apply H; left; reflexivity).
+      rewrite He in Hg. destruct Hg.
 Qed.
 
 (* ---- conformance of CheckReferFile ---- *)
@@ -273,36 +278,47 @@ Proof.
   apply has_dot_In. apply in_or_app. right. unfold init_tail, dot. simpl. tauto.
 Qed.
 
+Lemma conforms_choice fx files cur r cs (P : list N -> bool) :
+  (forall c, In c cs <-> In c files /\ P c = true) ->
+  conforms (match best_of fx cur r cs with [] => not_found | l => found l end)
+           (match filter P files with [] => not_found | l => found l end) = true.
+Proof.
+  intros H. destruct (best_of_sub fx files cur r cs P H) as [Hsub Hnil].
+  destruct (best_of fx cur r cs) as [|b bs] eqn:Eb.
+  - rewrite (proj1 Hnil eq_refl). apply conforms_refl.
+  - destruct (filter P files) as [|g gs] eqn:Ef.
+    + destruct Hnil as [_ Hnil]. specialize (Hnil eq_refl). discriminate.
+    + apply conforms_found; [discriminate|discriminate|exact Hsub].
+Qed.
+
 Section Conform.
   Variable disk : list N -> bool.
   Variable cfg : rcfg.
+  Variable sfx : bool.
   Variable st : idx.
   Variable files : fset.
-  Hypothesis Hok : index_ok st files.
+  Hypothesis Hok : index_ok sfx st files.
 
-  (* literal references (dofile, loadfile, suffix-style imports) whose text contains a '.' *)
-  Lemma conforms_suffix cur refer : has_dot (remove_pre_str refer) = true ->
+  (* literal references (dofile, loadfile, suffix-style imports): after fixes/C18-dofile-no-suffix.diff always, before it
+     when the text contains a '.' *)
+  Lemma conforms_suffix cur refer : lit_fixed cfg = true \/ has_dot (remove_pre_str refer) = true ->
     conforms (check_refer disk cfg st cur KSuffix refer) (spec_refer disk cfg files KSuffix refer) = true.
   Proof.
     intros Hd. unfold check_refer, spec_refer.
     destruct (mem_bytes (remove_pre_str refer) (ignore_refer cfg)); [apply conforms_refl|].
     destruct (disk (complete_path (main_dir cfg) (remove_pre_str refer))); [apply conforms_refl|].
     destruct (exact_mode cfg); [apply conforms_refl|].
-    destruct (best_set_fx_sub (order_fixed cfg) st files cur (remove_pre_str refer) (path_suffix (remove_pre_str refer))
-                (fun c => cands_name st files _ c Hok Hd)) as [Hsub Hnil].
-    unfold lit_candidates.
-    destruct (best_set_fx (order_fixed cfg) cur (remove_pre_str refer) st) as [|b bs] eqn:Eb.
-    - rewrite (proj1 Hnil eq_refl). apply conforms_refl.
-    - destruct (filter (path_suffix (remove_pre_str refer)) files) as [|g gs] eqn:Ef.
-      + destruct Hnil as [_ Hnil]. specialize (Hnil eq_refl). discriminate.
-      + apply conforms_found; [discriminate|discriminate|exact Hsub].
+    unfold best_set_lit, lit_candidates.
+    assert (lit_fixed cfg || has_dot (remove_pre_str refer) = true) as ->
+      by (destruct Hd as [-> | ->]; [reflexivity|apply orb_true_r]).
+    apply conforms_choice. intros c. apply (cands_name_g sfx); exact Hok.
   Qed.
 
-  (* require / suffix-less imports, every workspace file having a simple name *)
-  Lemma conforms_nosuffix cur k refer : k <> KSuffix -> all_simple files ->
+  (* require / suffix-less imports, every workspace file having a name the variant handles *)
+  Lemma conforms_nosuffix cur k refer : k <> KSuffix -> all_good sfx files ->
     conforms (check_refer disk cfg st cur k refer) (spec_refer disk cfg files k refer) = true.
   Proof.
-    intros Hk Hsimple. unfold check_refer, spec_refer.
+    intros Hk Hgood. unfold check_refer, spec_refer.
     destruct (mem_bytes (remove_pre_str refer) (ignore_refer cfg)); [apply conforms_refl|].
     set (s := remove_pre_str refer).
     assert (conforms
@@ -331,18 +347,13 @@ Section Conform.
       destruct (exact_mode cfg); [apply conforms_refl|].
       set (mp := replace_byte dot slash s).
       assert (has_dot mp = false) as Hnd by (apply has_dot_false; apply replace_no_dot).
-      destruct (best_set_fx_sub (order_fixed cfg) st files cur mp (path_suffix (mp ++ lua_ext))
-                  (fun c => cands_pre st files _ c Hok Hsimple Hnd)) as [Hsub1 Hnil1].
-      destruct (best_set_fx_sub (order_fixed cfg) st files cur (mp ++ init_tail) (path_suffix (mp ++ init_tail))
-                  (fun c => cands_name st files _ c Hok (has_dot_init mp))) as [Hsub2 Hnil2].
+      unfold best_set_fx.
+      destruct (best_of_sub (order_fixed cfg) files cur mp (bm_candidates mp st) (path_suffix (mp ++ lua_ext))
+                  (fun c => cands_pre sfx st files _ c Hok Hgood Hnd)) as [Hsub1 Hnil1].
       unfold doc_candidates, doc_lua, doc_init, mod_path. fold mp.
-      destruct (best_set_fx (order_fixed cfg) cur mp st) as [|b bs] eqn:Eb.
+      destruct (best_of (order_fixed cfg) cur mp (bm_candidates mp st)) as [|b bs] eqn:Eb.
       - rewrite (proj1 Hnil1 eq_refl).
-        destruct (best_set_fx (order_fixed cfg) cur (mp ++ init_tail) st) as [|b2 bs2] eqn:Eb2.
-        + rewrite (proj1 Hnil2 eq_refl). apply conforms_refl.
-        + destruct (filter (path_suffix (mp ++ init_tail)) files) as [|g gs] eqn:Ef.
-          * destruct Hnil2 as [_ Hn]. specialize (Hn eq_refl). discriminate.
-          * apply conforms_found; [discriminate|discriminate|exact Hsub2].
+        apply conforms_choice. intros c. apply (cands_name sfx); [exact Hok|apply has_dot_init].
       - destruct (filter (path_suffix (mp ++ lua_ext)) files) as [|g gs] eqn:Ef.
         + destruct Hnil1 as [_ Hn]. specialize (Hn eq_refl). discriminate.
         + apply conforms_found; [discriminate|discriminate|exact Hsub1]. }
@@ -350,16 +361,41 @@ Section Conform.
   Qed.
 End Conform.
 
+(* the general statement: sfx = the variant the index was built with *)
+Theorem resolve_conforms_g sfx disk cfg st files cur k refer :
+  index_ok sfx st files ->
+  (k <> KSuffix -> all_good sfx files) ->
+  (k = KSuffix -> lit_fixed cfg = true \/ has_dot (remove_pre_str refer) = true) ->
+  conforms (check_refer disk cfg st cur k refer) (spec_refer disk cfg files k refer) = true.
+Proof.
+  intros Hok H1 H2. destruct k.
+  - apply (conforms_nosuffix disk cfg sfx); [exact Hok|discriminate|apply H1; discriminate].
+  - apply (conforms_suffix disk cfg sfx); [exact Hok|apply H2; reflexivity].
+  - apply (conforms_nosuffix disk cfg sfx); [exact Hok|discriminate|apply H1; discriminate].
+Qed.
+
+(* the code before fixes/C18-dotted-path.diff and fixes/C18-dofile-no-suffix.diff *)
 Theorem resolve_conforms disk cfg st files cur k refer :
-  index_ok st files ->
+  index_ok false st files ->
   (k <> KSuffix -> all_simple files) ->
   (k = KSuffix -> has_dot (remove_pre_str refer) = true) ->
   conforms (check_refer disk cfg st cur k refer) (spec_refer disk cfg files k refer) = true.
 Proof.
-  intros Hok H1 H2. destruct k.
-  - apply conforms_nosuffix; [exact Hok|discriminate|apply H1; discriminate].
-  - apply conforms_suffix; [exact Hok|apply H2; reflexivity].
-  - apply conforms_nosuffix; [exact Hok|discriminate|apply H1; discriminate].
+  intros Hok H1 H2. apply (resolve_conforms_g false); [exact Hok| |].
+  - intros Hk. apply all_simple_good. apply H1. exact Hk.
+  - intros Hk. right. apply H2. exact Hk.
+Qed.
+
+(* the repaired code: the only premise left is the domain of the documented mapping (".lua" files) for require-style
+   references; none at all for literal ones *)
+Theorem resolve_conforms_fixed disk cfg st files cur k refer :
+  index_ok true st files -> lit_fixed cfg = true ->
+  (k <> KSuffix -> all_lua files = true) ->
+  conforms (check_refer disk cfg st cur k refer) (spec_refer disk cfg files k refer) = true.
+Proof.
+  intros Hok Hl H1. apply (resolve_conforms_g true); [exact Hok| |].
+  - intros Hk. apply all_lua_good. apply H1. exact Hk.
+  - intros _. left. exact Hl.
 Qed.
 
 (* boolean form of all_simple, used by the class predicate odd_name *)
@@ -401,8 +437,8 @@ Qed.
 
 (* require m, not on an ignore list, default (fuzzy) mode: the "not find file" diagnostic is reported iff there is
    no native m.so at the root and no workspace file matches the documented candidates *)
-Theorem type6_iff disk cfg st files cur m :
-  index_ok st files -> all_simple files ->
+Theorem type6_iff_g sfx disk cfg st files cur m :
+  index_ok sfx st files -> all_good sfx files ->
   exact_mode cfg = false ->
   mem_bytes (remove_pre_str m) (ignore_refer cfg) = false ->
   mem_bytes (remove_pre_str m) (ignore_modules cfg) = false ->
@@ -411,7 +447,7 @@ Theorem type6_iff disk cfg st files cur m :
    ~ exists g, In g files /\ matches_doc (remove_pre_str m) g = true).
 Proof.
   intros Hok Hs He Hi1 Hi2.
-  pose proof (resolve_conforms disk cfg st files cur KRequire m Hok (fun _ => Hs) (fun H => ltac:(discriminate))) as Hc.
+  pose proof (resolve_conforms_g sfx disk cfg st files cur KRequire m Hok (fun _ => Hs) (fun H => ltac:(discriminate))) as Hc.
   unfold conforms in Hc. apply andb_true_iff in Hc as [Hc _]. apply andb_true_iff in Hc as [Hc _].
   apply andb_true_iff in Hc as [_ Hc]. apply eqb_prop in Hc. rewrite Hc.
   unfold spec_refer. rewrite Hi1, Hi2, He. simpl.
@@ -427,6 +463,26 @@ Proof.
       * unfold doc_found in Ef. apply existsb_exists in Ef. exact Ef.
       * apply doc_candidates_nil in Ef. congruence.
 Qed.
+
+Theorem type6_iff disk cfg st files cur m :
+  index_ok false st files -> all_simple files ->
+  exact_mode cfg = false ->
+  mem_bytes (remove_pre_str m) (ignore_refer cfg) = false ->
+  mem_bytes (remove_pre_str m) (ignore_modules cfg) = false ->
+  (r_err6 (check_refer disk cfg st cur KRequire m) = true <->
+   disk (complete_path (main_dir cfg) (doc_so (remove_pre_str m))) = false /\
+   ~ exists g, In g files /\ matches_doc (remove_pre_str m) g = true).
+Proof. intros Hok Hs. apply (type6_iff_g false); [exact Hok|apply all_simple_good; exact Hs]. Qed.
+
+Theorem type6_iff_fixed disk cfg st files cur m :
+  index_ok true st files -> all_lua files = true ->
+  exact_mode cfg = false ->
+  mem_bytes (remove_pre_str m) (ignore_refer cfg) = false ->
+  mem_bytes (remove_pre_str m) (ignore_modules cfg) = false ->
+  (r_err6 (check_refer disk cfg st cur KRequire m) = true <->
+   disk (complete_path (main_dir cfg) (doc_so (remove_pre_str m))) = false /\
+   ~ exists g, In g files /\ matches_doc (remove_pre_str m) g = true).
+Proof. intros Hok Hs. apply (type6_iff_g true); [exact Hok|apply all_lua_good; exact Hs]. Qed.
 
 (* ---- definition / hover on the module string vs. the file the analysis loaded ---- *)
 Definition unique_match (r : list N) (files : fset) : Prop :=
@@ -450,27 +506,15 @@ Proof.
   rewrite (Heq a b); [left; reflexivity|left; reflexivity|right; left; reflexivity].
 Qed.
 
-Lemma bm_candidates_nodup r st : wf_idx st -> NoDup (bm_candidates r st).
+Lemma bm_candidates_g_nodup b r st : wf_idx st -> NoDup (bm_candidates_g b r st).
 Proof.
-  intros Hwf. unfold bm_candidates. destruct (has_dot r); apply NoDup_map_fst_filter.
+  intros Hwf. unfold bm_candidates_g. destruct b; apply NoDup_map_fst_filter.
   - apply (wf_get_name st _ Hwf).
   - apply (wf_get_pre st _ Hwf).
 Qed.
 
-Lemma best_set_unique st files cur r (P : list N -> bool) :
-  wf_idx st ->
-  (forall c, In c (bm_candidates r st) <-> In c files /\ P c = true) ->
-  (forall c1 c2, In c1 files -> In c2 files -> P c1 = true -> P c2 = true -> c1 = c2) ->
-  (best_set cur r st = [] /\ forall c, In c files -> P c = false) \/
-  (exists c, best_set cur r st = [c] /\ In c files /\ P c = true).
-Proof.
-  intros Hwf H Hu. unfold best_set.
-  destruct (NoDup_all_eq (bm_candidates r st) (bm_candidates_nodup r st Hwf)) as [He|[c He]].
-  - intros a b Ha Hb. apply H in Ha as [Ha1 Ha2]. apply H in Hb as [Hb1 Hb2]. apply Hu; assumption.
-  - left. rewrite He. split; [reflexivity|]. intros c Hc. destruct (P c) eqn:E; [|reflexivity].
-    assert (In c (bm_candidates r st)) as Hin by (apply H; split; assumption). rewrite He in Hin. destruct Hin.
-  - right. exists c. rewrite He, argmax_single. split; [reflexivity|]. apply H. rewrite He. left. reflexivity.
-Qed.
+Lemma bm_candidates_nodup r st : wf_idx st -> NoDup (bm_candidates r st).
+Proof. apply bm_candidates_g_nodup. Qed.
 
 Lemma best_set_fx_unique fx st files cur r (P : list N -> bool) :
   wf_idx st ->
@@ -479,18 +523,28 @@ Lemma best_set_fx_unique fx st files cur r (P : list N -> bool) :
   (best_set_fx fx cur r st = [] /\ forall c, In c files -> P c = false) \/
   (exists c, best_set_fx fx cur r st = [c] /\ In c files /\ P c = true).
 Proof.
-  intros Hwf H Hu. destruct (best_set_unique st files cur r P Hwf H Hu) as [[He Hn]|[c [He [Hc Hp]]]].
-  - left. split; [apply best_set_fx_nil; exact He|exact Hn].
-  - right. exists c. split; [|split; assumption].
-    destruct fx; cbn [best_set_fx]; [|exact He].
-    destruct (best_match true cur r (bm_candidates r st)) as [m|] eqn:E.
-    + apply best_match_fixed_argmax in E. unfold best_set in He. rewrite He in E. destruct E as [<-|[]]. reflexivity.
-    + apply best_match_fixed_none in E. unfold best_set in He. rewrite E in He. discriminate.
+  intros Hwf H Hu. unfold best_set_fx.
+  destruct (NoDup_all_eq (bm_candidates r st) (bm_candidates_nodup r st Hwf)) as [He|[c He]].
+  - intros a b Ha Hb. apply H in Ha as [Ha1 Ha2]. apply H in Hb as [Hb1 Hb2]. apply Hu; assumption.
+  - left. rewrite He. split; [apply best_of_nil; reflexivity|]. intros c Hc. destruct (P c) eqn:E; [|reflexivity].
+    assert (In c (bm_candidates r st)) as Hin by (apply H; split; assumption). rewrite He in Hin. destruct Hin.
+  - right. exists c. rewrite He. split; [|apply H; rewrite He; left; reflexivity].
+    destruct (best_of fx cur r [c]) as [|x l] eqn:Eb.
+    + apply best_of_nil in Eb. discriminate.
+    + assert (forall y, In y (x :: l) -> y = c) as Hall.
+      { intros y Hy. rewrite <- Eb in Hy. apply best_of_incl in Hy. rewrite argmax_single in Hy.
+        destruct Hy as [<-|[]]. reflexivity. }
+      assert (x = c) as -> by (apply Hall; left; reflexivity).
+      destruct l as [|y l]; [reflexivity|]. exfalso.
+      (* a second element: impossible, both variants return at most the candidates of maximal score without repeats *)
+      destruct fx; cbn [best_of] in Eb.
+      * destruct (best_match true cur r [c]); discriminate.
+      * rewrite argmax_single in Eb. discriminate.
 Qed.
 
-Lemma so_not_simple x b : ~ In dot b -> is_suffix (x ++ so_ext) (b ++ lua_ext) = false.
+Lemma so_not_lua x b : is_suffix (x ++ so_ext) (b ++ lua_ext) = false.
 Proof.
-  intros _. destruct (is_suffix (x ++ so_ext) (b ++ lua_ext)) eqn:E; [|reflexivity].
+  destruct (is_suffix (x ++ so_ext) (b ++ lua_ext)) eqn:E; [|reflexivity].
   apply is_suffix_spec in E as [p Hp]. rewrite app_assoc in Hp.
   apply (f_equal (fun l => last l 0%N)) in Hp.
   rewrite !last_app_ne in Hp by discriminate. discriminate.
@@ -502,57 +556,65 @@ Proof.
   apply is_suffix_spec in E as [p ->]. exfalso. apply H. apply in_or_app. right. left. reflexivity.
 Qed.
 
-Lemma open_list_require m : m <> [] ->
-  open_list true false m = [mod_path m ++ lua_ext; mod_path m ++ so_ext; mod_path m ++ init_tail].
+(* the candidate list of definition / hover for require m; m' = the text the analysis works with *)
+Lemma open_list_require cfg m : dotslash_fixed cfg = true \/ remove_pre_str m = m -> remove_pre_str m <> [] ->
+  open_list cfg true false m =
+  [mod_path (remove_pre_str m) ++ lua_ext; mod_path (remove_pre_str m) ++ so_ext; mod_path (remove_pre_str m) ++ init_tail].
 Proof.
-  intros Hm. unfold open_list. simpl. fold (mod_path m).
-  rewrite (no_dot_not_lua (mod_path m) (replace_no_dot m)).
-  destruct m as [|x t]; [contradiction|]. reflexivity.
+  intros Hds Hm. unfold open_list. cbn [andb].
+  assert ((if dotslash_fixed cfg then remove_pre_str m else m) = remove_pre_str m) as ->.
+  { destruct Hds as [-> | Hr]; [reflexivity|]. rewrite Hr. destruct (dotslash_fixed cfg); reflexivity. }
+  fold (mod_path (remove_pre_str m)).
+  rewrite (no_dot_not_lua (mod_path (remove_pre_str m)) (replace_no_dot (remove_pre_str m))).
+  destruct (remove_pre_str m) as [|x t]; [contradiction|]. reflexivity.
 Qed.
 
-Theorem features_agree disk cfg st files cur m :
-  index_ok st files -> all_simple files ->
+Theorem features_agree_g sfx disk cfg st files cur m :
+  index_ok sfx st files -> all_good sfx files ->
   exact_mode cfg = false ->
-  remove_pre_str m = m -> m <> [] ->
-  mem_bytes m (ignore_refer cfg) = false -> mem_bytes m (ignore_modules cfg) = false ->
-  disk (complete_path (main_dir cfg) (doc_so m)) = false ->
-  unique_match (doc_lua m) files -> unique_match (doc_init m) files ->
+  dotslash_fixed cfg = true \/ remove_pre_str m = m ->
+  let m' := remove_pre_str m in
+  m' <> [] ->
+  mem_bytes m' (ignore_refer cfg) = false -> mem_bytes m' (ignore_modules cfg) = false ->
+  disk (complete_path (main_dir cfg) (doc_so m')) = false ->
+  unique_match (doc_lua m') files -> unique_match (doc_init m') files ->
   let out := check_refer disk cfg st cur KRequire m in
-  let oo := open_outcomes cfg st (fun f => fmem f files) cur (open_list true false m) in
+  let oo := open_outcomes cfg st (fun f => fmem f files) cur (open_list cfg true false m) in
   (r_resolved out = [] /\ oo = [None]) \/
   (exists it c, r_resolved out = [c] /\ oo = [Some (it, c)] /\ path_suffix it c = true /\
-                (it = doc_lua m \/ it = doc_init m)).
+                (it = doc_lua m' \/ it = doc_init m')).
 Proof.
-  intros Hok Hsimple He Hpre Hm Hi1 Hi2 Hso Hu1 Hu2. cbv zeta.
-  rewrite (open_list_require m Hm). unfold check_refer. rewrite Hpre, Hi1, Hi2, He. simpl andb. cbv iota.
-  change (replace_byte dot slash m) with (mod_path m).
+  intros Hok Hgood He Hds. cbv zeta. intros Hm Hi1 Hi2 Hso Hu1 Hu2.
+  rewrite (open_list_require cfg m Hds Hm). unfold check_refer. rewrite Hi1, Hi2, He. simpl andb. cbv iota.
+  change (replace_byte dot slash (remove_pre_str m)) with (mod_path (remove_pre_str m)).
   unfold doc_so in Hso. rewrite Hso.
-  unfold doc_lua, doc_init.
-  set (mp := mod_path m) in *.
+  unfold doc_lua, doc_init in *.
+  set (mp := mod_path (remove_pre_str m)) in *.
   assert (has_dot mp = false) as Hnd by (apply has_dot_false; apply replace_no_dot).
   destruct Hok as [Hwf His].
-  pose proof (conj Hwf His : index_ok st files) as Hok.
+  pose proof (conj Hwf His : index_ok sfx st files) as Hok.
   assert (has_dot (mp ++ lua_ext) = true) as Hdl by (apply has_dot_In; apply in_or_app; right; left; reflexivity).
   (* analysis, first lookup (pre map) and definition, first item (name map): same candidates *)
   destruct (best_set_fx_unique (order_fixed cfg) st files cur mp (path_suffix (mp ++ lua_ext)) Hwf
-              (fun c => cands_pre st files _ c Hok Hsimple Hnd) Hu1) as [[Ea Hna]|[ca [Ea [Hca Hpa]]]];
+              (fun c => cands_pre sfx st files _ c Hok Hgood Hnd) Hu1) as [[Ea Hna]|[ca [Ea [Hca Hpa]]]];
   destruct (best_set_fx_unique (order_fixed cfg) st files cur (mp ++ lua_ext) (path_suffix (mp ++ lua_ext)) Hwf
-              (fun c => cands_name st files _ c Hok Hdl) Hu1)
+              (fun c => cands_name sfx st files _ c Hok Hdl) Hu1)
     as [[Ed Hnd1]|[cd [Ed [Hcd Hpd]]]].
-  - (* no name.lua anywhere: both go on to init.lua; the .so item finds nothing among simple names *)
+  - (* no name.lua anywhere: both go on to init.lua; the .so item finds nothing among ".lua" files *)
     simpl open_outcomes. rewrite Ed. simpl.
     assert (best_set_fx (order_fixed cfg) cur (mp ++ so_ext) st = []) as Es.
     { assert (has_dot (mp ++ so_ext) = true) as Hd by (apply has_dot_In; apply in_or_app; right; left; reflexivity).
-      destruct (best_set_fx_sub (order_fixed cfg) st files cur (mp ++ so_ext) (path_suffix (mp ++ so_ext))
-                  (fun c => cands_name st files _ c Hok Hd)) as [_ Hnil].
+      unfold best_set_fx.
+      destruct (best_of_sub (order_fixed cfg) files cur (mp ++ so_ext) (bm_candidates (mp ++ so_ext) st)
+                  (path_suffix (mp ++ so_ext)) (fun c => cands_name sfx st files _ c Hok Hd)) as [_ Hnil].
       apply Hnil. destruct (filter (path_suffix (mp ++ so_ext)) files) as [|g l] eqn:Ef; [reflexivity|].
       assert (In g (filter (path_suffix (mp ++ so_ext)) files)) as Hg by (rewrite Ef; left; reflexivity).
-      apply filter_In in Hg as [Hg Hp]. destruct (proj1 (simple_lua_spec g) (Hsimple g Hg)) as [b [-> Hb]].
+      apply filter_In in Hg as [Hg Hp]. destruct (good_lua_spec sfx g (Hgood g Hg)) as [b [-> _]].
       unfold path_suffix in Hp. change (slash :: mp ++ so_ext) with ((slash :: mp) ++ so_ext) in Hp.
-      rewrite (so_not_simple (slash :: mp) b Hb) in Hp. discriminate. }
+      rewrite (so_not_lua (slash :: mp) b) in Hp. discriminate. }
     rewrite Es. simpl. rewrite Ea.
     destruct (best_set_fx_unique (order_fixed cfg) st files cur (mp ++ init_tail) (path_suffix (mp ++ init_tail)) Hwf
-                (fun c => cands_name st files _ c Hok (has_dot_init mp)) Hu2) as [[Ei Hni]|[ci [Ei [Hci Hpi]]]].
+                (fun c => cands_name sfx st files _ c Hok (has_dot_init mp)) Hu2) as [[Ei Hni]|[ci [Ei [Hci Hpi]]]].
     + rewrite Ei. simpl. left. split; reflexivity.
     + rewrite Ei. simpl. apply fmem_In in Hci as Hci'. rewrite Hci'. simpl. right.
       exists (mp ++ init_tail), ci. repeat split; try reflexivity; [exact Hpi|right; reflexivity].
@@ -564,22 +626,68 @@ Proof.
     exists (mp ++ lua_ext), cd. repeat split; try reflexivity; [exact Hpd|left; reflexivity].
 Qed.
 
+(* the code before fixes/C18-dotted-path.diff and fixes/C18-dot-slash-definition.diff *)
+Theorem features_agree disk cfg st files cur m :
+  index_ok false st files -> all_simple files ->
+  exact_mode cfg = false ->
+  remove_pre_str m = m -> m <> [] ->
+  mem_bytes m (ignore_refer cfg) = false -> mem_bytes m (ignore_modules cfg) = false ->
+  disk (complete_path (main_dir cfg) (doc_so m)) = false ->
+  unique_match (doc_lua m) files -> unique_match (doc_init m) files ->
+  let out := check_refer disk cfg st cur KRequire m in
+  let oo := open_outcomes cfg st (fun f => fmem f files) cur (open_list cfg true false m) in
+  (r_resolved out = [] /\ oo = [None]) \/
+  (exists it c, r_resolved out = [c] /\ oo = [Some (it, c)] /\ path_suffix it c = true /\
+                (it = doc_lua m \/ it = doc_init m)).
+Proof.
+  intros Hok Hs He Hpre Hm Hi1 Hi2 Hso Hu1 Hu2.
+  pose proof (features_agree_g false disk cfg st files cur m Hok (proj1 (all_simple_good files) Hs) He (or_intror Hpre)) as H.
+  cbv zeta in H. rewrite Hpre in H. exact (H Hm Hi1 Hi2 Hso Hu1 Hu2).
+Qed.
+
+(* the repaired code: every ".lua" workspace, every text (a leading "./" included) *)
+Theorem features_agree_fixed disk cfg st files cur m :
+  index_ok true st files -> all_lua files = true ->
+  exact_mode cfg = false -> dotslash_fixed cfg = true ->
+  let m' := remove_pre_str m in
+  m' <> [] ->
+  mem_bytes m' (ignore_refer cfg) = false -> mem_bytes m' (ignore_modules cfg) = false ->
+  disk (complete_path (main_dir cfg) (doc_so m')) = false ->
+  unique_match (doc_lua m') files -> unique_match (doc_init m') files ->
+  let out := check_refer disk cfg st cur KRequire m in
+  let oo := open_outcomes cfg st (fun f => fmem f files) cur (open_list cfg true false m) in
+  (r_resolved out = [] /\ oo = [None]) \/
+  (exists it c, r_resolved out = [c] /\ oo = [Some (it, c)] /\ path_suffix it c = true /\
+                (it = doc_lua m' \/ it = doc_init m')).
+Proof.
+  intros Hok Hs He Hds.
+  exact (features_agree_g true disk cfg st files cur m Hok (proj1 (all_lua_good files) Hs) He (or_introl Hds)).
+Qed.
+
 (* ---- the answers follow create/delete events ---- *)
-Lemma index_ok_fixed ops : index_ok (idx_run_fixed ops) (files_after ops).
+Lemma index_ok_fixed sfx ops : index_ok sfx (idx_run_fixed_g sfx ops) (files_after ops).
 Proof. split; [apply wf_run_fixed|apply fixed_refines]. Qed.
 
-Lemma index_ok_unfixed ops : abs_ops ops = true -> stale_remove ops = false -> index_ok (idx_run ops) (files_after ops).
+Lemma index_ok_unfixed sfx ops : abs_ops ops = true -> stale_remove ops = false ->
+  index_ok sfx (idx_run_g sfx ops) (files_after ops).
 Proof. intros Ha Hs. split; [apply wf_run|apply unfixed_refines_guarded; assumption]. Qed.
 
+(* the deployed code (all repairs) *)
+Theorem reacts_deployed disk cfg ops cur k refer : lit_fixed cfg = true ->
+  (k <> KSuffix -> all_lua (files_after ops) = true) ->
+  conforms (check_refer disk cfg (idx_run_fixed_g true ops) cur k refer) (spec_refer disk cfg (files_after ops) k refer) = true.
+Proof. intros Hl H1. apply resolve_conforms_fixed; [apply index_ok_fixed|exact Hl|exact H1]. Qed.
+
+(* RemoveOneFile repaired (ec76861), the rest as before *)
 Theorem reacts_fixed disk cfg ops cur k refer :
   (k <> KSuffix -> all_simple (files_after ops)) ->
   (k = KSuffix -> has_dot (remove_pre_str refer) = true) ->
-  conforms (check_refer disk cfg (idx_run_fixed ops) cur k refer) (spec_refer disk cfg (files_after ops) k refer) = true.
+  conforms (check_refer disk cfg (idx_run_fixed_g false ops) cur k refer) (spec_refer disk cfg (files_after ops) k refer) = true.
 Proof. intros H1 H2. apply resolve_conforms; [apply index_ok_fixed|exact H1|exact H2]. Qed.
 
 Theorem reacts_unfixed disk cfg ops cur k refer :
   abs_ops ops = true -> stale_remove ops = false ->
   (k <> KSuffix -> all_simple (files_after ops)) ->
   (k = KSuffix -> has_dot (remove_pre_str refer) = true) ->
-  conforms (check_refer disk cfg (idx_run ops) cur k refer) (spec_refer disk cfg (files_after ops) k refer) = true.
+  conforms (check_refer disk cfg (idx_run_g false ops) cur k refer) (spec_refer disk cfg (files_after ops) k refer) = true.
 Proof. intros Ha Hs H1 H2. apply resolve_conforms; [apply index_ok_unfixed; assumption|exact H1|exact H2]. Qed.
